@@ -7,6 +7,7 @@ package main
 import (
 	"fmt"
 	"math"
+	"regexp"
 	"sort"
 	"strings"
 
@@ -16,6 +17,9 @@ import (
 func ptr[T any](v T) *T { return &v }
 
 var theEnum = EnumEnv{Name: "Color", Prefix: "COLOR_", Options: []string{"RED", "GREEN", "BLUE", "DARK_RED"}}
+
+// the same enum with its zero option declared explicitly (rules can then name it)
+var theEnumZ = EnumEnv{Name: "Color", Prefix: "COLOR_", Unspecified: "UNSPECIFIED", Options: []string{"RED", "GREEN", "BLUE", "DARK_RED"}}
 
 // genEnum: the enum of a compile unit: default or explicit prefix, options
 // written short or prefixed, an explicit UNSPECIFIED now and then, descriptions
@@ -54,11 +58,56 @@ func genEnum(r *vh.Rand) EnumEnv {
 	if r.Chance(40) {
 		e.Desc = genDesc(r)
 	}
+	// info fields of the enum and info of its options
+	if r.Chance(30) {
+		for i, n := 0, r.Range(1, 2); i < n; i++ {
+			f := [3]string{vh.Pick(r, []string{"hex", "label", "weight"}) + fmt.Sprint(i), "", ""}
+			if r.Bool() {
+				f[1] = vh.Pick(r, []string{"Hex", "A label", "é"})
+			}
+			if r.Chance(40) {
+				f[2] = "describes " + f[0]
+			}
+			e.InfoFields = append(e.InfoFields, f)
+		}
+		e.OptInfos = make([]map[string]string, len(e.Options))
+		for i := range e.Options {
+			if r.Chance(60) {
+				m := map[string]string{}
+				for _, f := range e.InfoFields {
+					if r.Chance(70) {
+						m[f[0]] = vh.Pick(r, []string{"ff0000", "", "two words", "é日"})
+					}
+				}
+				if len(m) > 0 {
+					e.OptInfos[i] = m
+				}
+			}
+		}
+		if e.Unspecified != "" && r.Chance(40) {
+			e.UnspecInfo = map[string]string{e.InfoFields[0][0]: "none"}
+		}
+	}
 	return e
 }
 
 // patterns of the one form the Coq correspondence can decide: ^[ranges]{n}$
 var patterns = []string{"^[a-z]{3}$", "^[0-9A-F]{4}$", "^[a-c0-2]{2}$", "^[A-Za-z]{1}$", "^[0-9]{5}$"}
+
+// patterns Go's regexp (RE2, which CEL's matches() uses) refuses to compile; the
+// j5 compiler copies them into string.pattern unchecked
+var badPatterns = []string{"[", "(", "a)", "(?=a)", "a{2000}", "(a)\\1", "*a", "a**", "[z-a]"}
+
+func init() {
+	for _, p := range badPatterns {
+		if _, err := regexp.Compile(p); err == nil {
+			panic("badPatterns: " + p + " compiles")
+		}
+	}
+	for _, p := range patterns {
+		regexp.MustCompile(p)
+	}
+}
 
 // bounds the j5s text language can express: BCL has no negative integer literal
 func boundRange(k IKind) (lo, hi int64) {
@@ -211,12 +260,22 @@ func genFTy(r *vh.Rand, scope string, env EnumEnv) (FTy, string) {
 			}
 			if r.Chance(40) {
 				sr.Pat = ptr(vh.Pick(r, patterns))
+				if scope == "c12" && r.Chance(60) {
+					sr.Pat = ptr(genPattern(r)) // any expression of the modelled RE2 fragment
+				}
 			}
 			t.Str = sr
 		}
 		t.List = genLPay(r, false, true)
 		if scope == "all" && r.Chance(12) {
 			t.SFormat = ptr(vh.Pick(r, []string{"uri", "date", "email", "uuid"}))
+		}
+		if scope == "c12" && t.Str != nil && r.Chance(7) {
+			t.Str.Pat = ptr(vh.Pick(r, badPatterns))
+			if r.Bool() {
+				t.Str.Pat = ptr(genBadPattern(r))
+			}
+			return t, "unevaluable-pattern" // compiles; the validator then fails on every message of the type
 		}
 		return t, ""
 	case 3:
@@ -257,6 +316,14 @@ func genFTy(r *vh.Rand, scope string, env EnumEnv) (FTy, string) {
 			for i := r.Intn(3); i > 0; i-- {
 				er.NotIn = append(er.NotIn, name())
 			}
+			if env.stdZero() && r.Chance(35) { // the explicit zero option can be named
+				z := vh.Pick(r, []string{"UNSPECIFIED", env.Prefix + "UNSPECIFIED", env.Unspecified})
+				if r.Chance(65) {
+					er.NotIn = append(er.NotIn, z)
+				} else {
+					er.In = append(er.In, z)
+				}
+			}
 			if r.Chance(4) {
 				er.NotIn = append(er.NotIn, vh.Pick(r, []string{"PURPLE", "UNSPECIFIED", "red"}))
 				class = "compile-error"
@@ -272,6 +339,11 @@ func genFTy(r *vh.Rand, scope string, env EnumEnv) (FTy, string) {
 		class := ""
 		if t.KF == KCustom {
 			t.KPat = vh.Pick(r, patterns)
+			if scope == "c12" && r.Chance(50) {
+				// (not the empty pattern: KeyFormat.Custom.pattern is a required value of the source schema)
+				for t.KPat = genPattern(r); t.KPat == ""; t.KPat = genPattern(r) {
+				}
+			}
 		}
 		if r.Chance(30) {
 			e := &EntityKey{}
@@ -292,9 +364,18 @@ func genFTy(r *vh.Rand, scope string, env EnumEnv) (FTy, string) {
 		if t.List != nil && t.KF == KInformal {
 			class = "compile-error"
 		}
+		if scope == "c12" && t.KF == KCustom && class == "" && r.Chance(12) {
+			t.KPat = vh.Pick(r, badPatterns)
+			class = "unevaluable-pattern"
+		}
 		return t, class
 	case 7:
-		return FTy{Kind: TFloat, F64: r.Bool(), List: genLPay(r, true, false)}, ""
+		t := FTy{Kind: TFloat, F64: r.Bool(), List: genLPay(r, true, false)}
+		if r.Chance(10) {
+			t.FloatR = true
+			return t, "compile-error" // "TODO: float rules not implemented"
+		}
+		return t, ""
 	case 8:
 		t := FTy{Kind: TDate, List: genLPay(r, false, false)}
 		if r.Chance(50) {
@@ -308,9 +389,30 @@ func genFTy(r *vh.Rand, scope string, env EnumEnv) (FTy, string) {
 		}
 		return t, ""
 	case 10:
-		return FTy{Kind: TTimestamp, List: genLPay(r, true, false)}, ""
+		t := FTy{Kind: TTimestamp, List: genLPay(r, true, false)}
+		if r.Chance(40) {
+			ts := &TSRules{XMin: optBool(r), XMax: optBool(r)}
+			// j5s text cannot set a timestamp attribute ("unsupported scalar type"): bounds through the AST only
+			if genAST && r.Chance(60) {
+				ts.Min = ptr(int64(r.Range(0, 2000000000)))
+			}
+			if genAST && r.Chance(60) {
+				ts.Max = ptr(int64(r.Range(0, 2000000000)))
+			}
+			if ts.Min != nil || ts.Max != nil || ts.XMin != nil || ts.XMax != nil || genAST {
+				t.TS = ts
+			}
+		}
+		return t, ""
 	case 11:
-		return FTy{Kind: TObject, Flatten: r.Chance(40)}, ""
+		t := FTy{Kind: TObject, Flatten: r.Chance(40)}
+		if r.Chance(35) {
+			or := &ObjRules{Min: smallLen(r), Max: smallLen(r)}
+			if or.Min != nil || or.Max != nil || genAST {
+				t.ObjR = or
+			}
+		}
+		return t, ""
 	case 12:
 		if r.Bool() {
 			t := FTy{Kind: TAny, List: genLPay(r, false, false)}
@@ -322,7 +424,7 @@ func genFTy(r *vh.Rand, scope string, env EnumEnv) (FTy, string) {
 			}
 			return t, ""
 		}
-		return FTy{Kind: TOneof, List: genLPay(r, false, false)}, ""
+		return FTy{Kind: TOneof, OneofR: genAST && r.Chance(30), List: genLPay(r, false, false)}, ""
 	}
 	panic("unreachable")
 }
@@ -354,10 +456,35 @@ func genProp04(r *vh.Rand, name string, env EnumEnv) genDecl {
 			}
 		}
 	}
+	// a string whose pattern is one of the reader's well-known patterns
+	if gd.P.T.Kind == TStr && gd.P.T.SFormat == nil && r.Chance(8) {
+		if gd.P.T.Str == nil {
+			gd.P.T.Str = &StrRules{}
+		}
+		gd.P.T.Str.Pat = ptr(vh.Pick(r, wellKnownPatterns))
+	}
+	// optional = true on an array or a map
+	if gd.P.PK != PSingle && !gd.P.Req && gd.Class == "" && !isPrimary(gd.P) && !genAST && r.Chance(6) { // (the AST path links with protodesc, which refuses proto3_optional on a repeated field)
+		gd.P.Opt = true
+	}
 	if gd.P.Desc != "" && r.Chance(10) {
-		gd.P.Desc = vh.Pick(r, []string{"# not a description", "two  spaces", "ends with space "})
+		ds := []string{"# not a description", "two  spaces", "first line\n# second\nthird"}
+		if genAST {
+			ds = append(ds, "ends with space ") // the j5s text cannot say it
+		}
+		gd.P.Desc = vh.Pick(r, ds)
 	}
 	return gd
+}
+
+// lib/j5schema wellKnownStringPatterns
+var wellKnownPatterns = []string{`^\d{4}-\d{2}-\d{2}$`, `^\d(.?\d)?$`, "^[0-9A-Za-z]{22}$"}
+
+// propName: property names as j5s writes them (lowerCamel), with the shapes
+// strcase.ToSnake treats differently: a capital after a lower-case letter, digits,
+// adjacent capitals, an underscore; the index keeps the proto names distinct
+func propName(r *vh.Rand, i int) string {
+	return fmt.Sprintf(vh.Pick(r, []string{"f%d", "f%d", "fooBar%d", "x%dY", "aBC%d", "foo_bar%d", "f%dId", "someURL%d"}), i)
 }
 
 var descWords = []string{"the", "quick", "id", "of", "a", "thing", "x2", "value.", "(unit)"}
@@ -375,16 +502,24 @@ func genDesc(r *vh.Rand) string {
 
 func genProp(r *vh.Rand, name string, scope string, env EnumEnv) genDecl {
 	t, class := genFTy(r, scope, env)
+	forceArray := false
+	if scope == "c12" && class == "" && r.Chance(9) {
+		// arrays of floats and of message-typed items: the items carry no rule, the
+		// array rules (counts, uniqueness) apply
+		t = FTy{Kind: vh.Pick(r, []TyKind{TFloat, TFloat, TTimestamp, TDate, TDecimal, TAny, TObject, TOneof})}
+		t.F64 = r.Bool()
+		forceArray = true
+	}
 	p := Prop{Name: name, T: t, Desc: genDesc(r)}
-	if r.Chance(30) && t.Kind != TOneof {
+	if forceArray || (r.Chance(30) && t.Kind != TOneof) {
 		p.PK = PArray
-		if r.Chance(70) {
+		if forceArray || r.Chance(70) {
 			ar := &ArrRules{Min: smallLen(r), Max: smallLen(r), Uniq: optBool(r)}
 			if ar.Min != nil && ar.Max != nil && *ar.Min > *ar.Max {
 				*ar.Min, *ar.Max = *ar.Max, *ar.Min
 			}
-			if t.Kind >= TFloat { // unique is not defined for floats (NaN) and messages
-				ar.Uniq = nil
+			if ar.Uniq != nil && *ar.Uniq && t.Kind >= TDate && class == "" {
+				class = "unevaluable-unique" // compiles; repeated.unique then fails on any non-empty list of messages
 			}
 			p.Arr = ar
 		}
@@ -548,6 +683,9 @@ func strOfLen(r *vh.Rand, n int, ascii bool) string {
 func patternStrings(r *vh.Rand, pat string) []string {
 	var class string
 	var n int
+	if _, ok := patAST[pat]; ok || !strings.HasPrefix(pat, "^[") || !strings.Contains(pat, "]{") {
+		return patternTexts(r, pat) // not of the class-count form: sampled from the expression (or fixed texts for an ill-formed one)
+	}
 	if _, err := fmt.Sscanf(pat[strings.Index(pat, "{"):], "{%d}$", &n); err != nil {
 		return nil
 	}
@@ -713,9 +851,16 @@ func scalarValues(r *vh.Rand, t FTy) []Value {
 	case TKey:
 		return keyValues(r, t)
 	case TFloat:
-		return nil
+		var out []Value
+		for _, f := range []float64{0, math.Copysign(0, -1), 1.5, -1.5, 0.25, 3, 1e10, math.NaN(), math.Inf(1), math.Inf(-1)} {
+			if !t.F64 {
+				f = float64(float32(f))
+			}
+			out = append(out, Value{Kind: "float", F: f})
+		}
+		return out
 	}
-	return []Value{{Kind: "msg"}}
+	return []Value{{Kind: "msg", I: 0}, {Kind: "msg", I: 1}, {Kind: "msg", I: 2}}
 }
 
 func fieldValues(r *vh.Rand, p Prop) []FValue {
